@@ -128,10 +128,9 @@ func checkC07() *rtCheck {
 			for _, f := range v.Findings {
 				run.Violation(f.Key, f.What, c07Witness{Spec: d.Spec, DSL: d.DSL, Mounted: mounted})
 			}
-			if len(v.Findings) == 0 {
-				run.Distinct(d.Spec.Signature())
-				run.Sample(map[string]any{"features": d.Spec.Features, "mounted": mounted})
-			}
+			// a design counts as non-trivial when its documents were loaded and compared (findings or not)
+			run.Distinct(d.Spec.Signature())
+			run.Sample(map[string]any{"features": d.Spec.Features, "mounted": mounted, "findings": len(v.Findings)})
 		},
 	}
 }
